@@ -533,6 +533,12 @@ func (ex *Exec) step(fr *Frame, instr ssa.Instruction) *Panic {
 		if p.IsNil() {
 			return ex.runtimePanic("nil", "invalid memory address or nil pointer dereference")
 		}
+		if w, ok := ex.sharedScalar(p); ok {
+			if t, isT := ex.get(fr, in.Val).(*Term); isT {
+				ex.recordAccess("store", p, w, t, false)
+				return nil
+			}
+		}
 		ex.noteWrite(p.base.owner())
 		assignInto(p.base, p.idx, ex.get(fr, in.Val))
 		return nil
@@ -673,6 +679,10 @@ func (ex *Exec) unop(fr *Frame, in *ssa.UnOp) *Panic {
 		p := x.(*Ptr)
 		if p.IsNil() {
 			return ex.runtimePanic("nil", "invalid memory address or nil pointer dereference")
+		}
+		if w, ok := ex.sharedScalar(p); ok {
+			fr.env[in] = ex.recordAccess("load", p, w, nil, false)
+			return nil
 		}
 		ex.noteRead(p.base.owner())
 		fr.env[in] = copyVal(p.base.get(p.idx), nil)
